@@ -113,8 +113,10 @@ const SEL: &[&str] = &[".a", ".md\\:x", " ", ".b", ">", ",", ":not(", ":is(", ")
 /// reads as a descendant combinator -- but that input is not a well-formed selector, outside C08's quantifier)
 const SEL2: &[&str] = &[".", "a", "b", " ", ",", ">", ":", "*", ":is(", ":not(", ")", "[", "]", "=", "#i"];
 const VAL: &[&str] = &["calc(", "min(", "CALC(", "Clamp(", "1px", " + ", " - ", "2rpx", "(", ")", "*3", "var(--x,", " ", ",", "/*c*/", "red", ";", "!important", "#fff", ";height:", "+5", "-0", "+5px"];
-const WRAP: &[(&str, &str)] = &[("", ""), ("@media (min-width:1rpx){", "}"), ("@MEDIA (min-width:1px){", "}"), ("@layer x{", "}"), ("@supports selector(.c .d){", "}"), ("@container n (min-width: calc(1px + 2rpx)){", "}")];
-const BOUND: &str = "selectors of <= 4 token-level pieces from 15 (dot, identifiers, combinators, colon, star, :is/:not, brackets, =, hash; plain, under @media and inside x:is(..)), selectors of <= 4 pieces from 14 selector pieces (classes, combinators, :not/:is/::slotted/:nth-child(.. of ..), comments) under 6 wrappers (none, @media, @MEDIA, @layer, @supports selector(), @container with calc), and declaration values of <= 4 pieces from 20 value pieces (calc, min, CALC, Clamp, nested parentheses, var, rpx, comments, `;` also doubled and leading, !important, a hash, a second declaration); only inputs the transformer accepts without a warning; class prefixes `p` and the empty prefix";
+const WRAP: &[(&str, &str)] = &[("", ""), ("@media (min-width:1rpx){", "}"), ("@MEDIA (min-width:1px){", "}"), ("@layer x{", "}"), ("@supports selector(.c .d){", "}"), ("@container n (min-width: calc(1px + 2rpx)){", "}"), ("@starting-style{", "}"), ("@scope (.c) to (.d){", "}"), ("@STARTING-STYLE{", "}"), ("@document url(x){", "}")];
+/// at-rules whose block holds declarations (or keyframe / margin-box blocks of declarations), never selectors
+const DECL_WRAP: &[(&str, &str)] = &[("@page{width:", "}"), ("@page :first{margin:0 ", "}"), ("@font-face{width:", "}"), ("@keyframes k{from{width:", "}}"), ("@page{@top-left{width:", "}}"), ("@property --x{initial-value:", "}"), ("@counter-style c{pad:", "}")];
+const BOUND: &str = "selectors of <= 4 token-level pieces from 15 (dot, identifiers, combinators, colon, star, :is/:not, brackets, =, hash; plain, under @media and inside x:is(..)), selectors of <= 4 pieces from 14 selector pieces (classes, combinators, :not/:is/::slotted/:nth-child(.. of ..), comments) under 10 wrappers (none, @media, @MEDIA, @layer, @supports selector(), @container with calc, @starting-style, @STARTING-STYLE, @scope, @document), and declaration values of <= 4 pieces from 20 value pieces (calc, min, CALC, Clamp, nested parentheses, var, rpx, comments, `;` also doubled and leading, !important, a hash, a second declaration, signed numbers), and values of <= 2 pieces inside 7 declaration at-rules (@page, @font-face, @keyframes, margin boxes, @property, @counter-style); only inputs the transformer accepts without a warning; class prefixes `p` and the empty prefix";
 
 fn well_nested(css: &str) -> bool {
     let mut st = vec![];
@@ -167,6 +169,7 @@ pub fn search() -> Outcome {
         inputs.push(format!("x:is({}){{width:1px}}", s));
     }
     for v in combos(VAL, 4) { inputs.push(format!(".a{{width:{}}}", v)); }
+    for v in combos(VAL, 2) { for (a, b) in DECL_WRAP { inputs.push(format!("{}{}{}", a, v, b)); } }
     for css in inputs {
         count += 1;
         let c2 = css.clone();
